@@ -27,18 +27,19 @@ Record world := {
   attrs : list ((nat * string) * val);     (* recorder attributes *)
   iters : list (nat * list val);
   nextiter : nat;
-  fnames : list string                     (* names of the program's functions, for rendering *)
+  fnames : list string;                    (* names of the program's functions, for rendering *)
+  notes : list string                      (* diagnostics of the run (dynamic guard clauses); not part of an observation *)
 }.
 
 Definition w0 (fn : list string) : world :=
-  {| log := []; nextrec := 0; truths := []; attrs := []; iters := []; nextiter := 0; fnames := fn |}.
+  {| log := []; nextrec := 0; truths := []; attrs := []; iters := []; nextiter := 0; fnames := fn; notes := [] |}.
 
 Definition logw (e : list string) (w : world) : world :=
-  {| log := log w ++ [e]; nextrec := nextrec w; truths := truths w; attrs := attrs w; iters := iters w; nextiter := nextiter w; fnames := fnames w |}.
+  {| log := log w ++ [e]; nextrec := nextrec w; truths := truths w; attrs := attrs w; iters := iters w; nextiter := nextiter w; fnames := fnames w; notes := notes w |}.
 
 Definition fresh (w : world) : val * world :=
   (VRec (S (nextrec w)),
-   {| log := log w; nextrec := S (nextrec w); truths := truths w; attrs := attrs w; iters := iters w; nextiter := nextiter w; fnames := fnames w |}).
+   {| log := log w; nextrec := S (nextrec w); truths := truths w; attrs := attrs w; iters := iters w; nextiter := nextiter w; fnames := fnames w; notes := notes w |}).
 
 (* ------------------------------------------------------------------ rendering (vsupport.cr) *)
 Definition nat2s (n : nat) : string := n2s (N.of_nat n).
@@ -216,7 +217,7 @@ Fixpoint alookup_attr (k : nat * string) (m : list ((nat * string) * val)) : opt
   match m with [] => None | ((i, n), v) :: r => if Nat.eqb (fst k) i && String.eqb (snd k) n then Some v else alookup_attr k r end.
 
 Definition set_attr (k : nat * string) (v : val) (w : world) : world :=
-  {| log := log w; nextrec := nextrec w; truths := truths w; attrs := (k, v) :: attrs w; iters := iters w; nextiter := nextiter w; fnames := fnames w |}.
+  {| log := log w; nextrec := nextrec w; truths := truths w; attrs := (k, v) :: attrs w; iters := iters w; nextiter := nextiter w; fnames := fnames w; notes := notes w |}.
 
 Definition c_getattr (b : val) (x : string) (w : world) : pres val val * world :=
   match b with
@@ -258,7 +259,7 @@ Definition c_setitem (b i v : val) (w : world) : pres val unit * world :=
   end.
 
 Definition set_truth (i : nat) (b : bool) (w : world) : world :=
-  {| log := log w; nextrec := nextrec w; truths := (i, b) :: truths w; attrs := attrs w; iters := iters w; nextiter := nextiter w; fnames := fnames w |}.
+  {| log := log w; nextrec := nextrec w; truths := (i, b) :: truths w; attrs := attrs w; iters := iters w; nextiter := nextiter w; fnames := fnames w; notes := notes w |}.
 
 Definition c_call (f : val) (args : list val) (w : world) : pres val val * world :=
   match f, args with
@@ -283,7 +284,7 @@ Definition c_call (f : val) (args : list val) (w : world) : pres val val * world
 
 Definition new_iter (l : list val) (w : world) : val * world :=
   (VIter (nextiter w),
-   {| log := log w; nextrec := nextrec w; truths := truths w; attrs := attrs w; iters := (nextiter w, l) :: iters w; nextiter := S (nextiter w); fnames := fnames w |}).
+   {| log := log w; nextrec := nextrec w; truths := truths w; attrs := attrs w; iters := (nextiter w, l) :: iters w; nextiter := S (nextiter w); fnames := fnames w; notes := notes w |}).
 
 Definition c_iter (v : val) (w : world) : pres val val * world :=
   match v with
@@ -306,7 +307,7 @@ Definition c_next (it : val) (w : world) : pres val (option val) * world :=
   match it with
   | VIter i =>
     let '(o, m) := iter_pop i (iters w) in
-    (POk o, {| log := log w; nextrec := nextrec w; truths := truths w; attrs := attrs w; iters := m; nextiter := nextiter w; fnames := fnames w |})
+    (POk o, {| log := log w; nextrec := nextrec w; truths := truths w; attrs := attrs w; iters := m; nextiter := nextiter w; fnames := fnames w; notes := notes w |})
   | _ => (PRaise (exc "ModelLimit" "next of a non-iterator"), logw ["MODEL_LIMIT"; "next"] w)
   end.
 
